@@ -63,6 +63,7 @@ bool g_controller_scope = false;
 
 thread_local int tl_tid = -1;       // virtual thread id, -1 otherwise
 thread_local int tl_engine = 0;     // >0: inside engine/monitor code (allocations go to malloc)
+thread_local int tl_quiet = 0;      // >0: NoSchedule block (hooks ignored, arena allocation kept)
 
 struct EngineScope {
   EngineScope() { ++tl_engine; }
@@ -523,10 +524,21 @@ Choose(int cur)
     if (mask == 0) {
       bool blocked = false;
       for (int i = 0; i < G.n; ++i) blocked |= (G.th[i].st == S_BLOCKED);
-      if (!blocked && G.th[G.n - 1].st == S_GATED) {
-        G.th[G.n - 1].st = S_RUNNABLE;  // every other thread has finished: release the epilogue
-        G.stall = 0;
-        continue;
+      if (!blocked) {
+        // release the next gated wave: the lowest gated index and everything of the same wave
+        int first = -1;
+        for (int i = 0; i < G.n; ++i)
+          if (G.th[i].st == S_GATED) {
+            first = i;
+            break;
+          }
+        if (first >= 0) {
+          const int wave_end = (G.scn->gated_last && first < G.n - 1) ? G.n - 1 : G.n;
+          for (int i = first; i < wave_end; ++i)
+            if (G.th[i].st == S_GATED) G.th[i].st = S_RUNNABLE;
+          G.stall = 0;
+          continue;
+        }
       }
       if (!blocked) return -1;  // everything finished
       if (G.stall >= G.cfg.stall_rounds) {
@@ -789,6 +801,8 @@ RunOnce(const std::vector<uint8_t> &prefix)
     t.pend.kind = K_NOTE;
     t.pend_val = 0;
   }
+  if (G.scn->gated_from >= 0)
+    for (int i = G.scn->gated_from; i < G.n; ++i) G.th[i].st = S_GATED;
   if (G.scn->gated_last && G.n > 0) G.th[G.n - 1].st = S_GATED;
   {
     g_controller_scope = true;
@@ -853,7 +867,7 @@ fake_thread_handle()
 __attribute__((noinline)) bool
 pre(const Op &op_in)
 {
-  if (tl_tid < 0 || tl_engine > 0) return false;
+  if (tl_tid < 0 || tl_engine > 0 || tl_quiet > 0) return false;
   EngineScope es;
   auto &t = G.th[tl_tid];
   Op op = op_in;
@@ -911,7 +925,7 @@ pre(const Op &op_in)
 __attribute__((noinline)) void
 post(const Op &op_in, uint64_t observed, uint64_t written, bool wrote)
 {
-  if (tl_tid < 0 || tl_engine > 0) return;
+  if (tl_tid < 0 || tl_engine > 0 || tl_quiet > 0) return;
   EngineScope es;
   auto &t = G.th[tl_tid];
   Op op = op_in;
@@ -1113,6 +1127,9 @@ Replaying()
 {
   return G.replay_verbose;
 }
+
+NoSchedule::NoSchedule() { ++tl_quiet; }
+NoSchedule::~NoSchedule() { --tl_quiet; }
 
 void
 Note(const char *s)
